@@ -11,7 +11,7 @@ JSON: {"nc4": bool, "steps": [ {"E": ds, "RB": [field…], "S": [field…]} … 
   field {"groups": bool, "ft": str|null, "ftf": str|null, "gc": [[k,vhash]…], "reqs": [req…]}
   cons  [cid, kind, strlen|null, [[k,vhash]…]]
   breq  [cons, size, dimBase, varPinned|null, clim]
-  req   ["dc",key,axis,cons,base|null,ncdim|null,size,unlim,breq|null] | ["ad",axis,size,unlim,base,[[cid,kind,pos]…]]
+  req   ["dc",key,axis,cons,base|null,ncdim|null,size,unlim,breq|null] | ["ad",axis,size,unlim,base,[[cid,kind,pos]…],pinned?]
       | ["sc",key,axis,cons,base,breq|null] | ["ax",key,cons,[axes],base,breq|null] | ["da",key,cons,[axes],base,breq|null]
       | ["ms",key,cons,[axes],base,measure] | ["ft",owner,zaxis,[[term,key,[axes]]…]] | ["gm",cons,base,[keys],multiple]
       | ["fa",key,cons,[axes],base] | ["dv",cons,base,[axes],[[[axis|str…],rest]…],isDomain]
@@ -59,7 +59,8 @@ def req (j : Json) : P Req := do
   | "dc" => pure (.dimCoord (← nat (← at' a 1)) (← nat (← at' a 2)) (← cons (← at' a 3)) (← optStr (← at' a 4))
                   (← optStr (← at' a 5)) (← nat (← at' a 6)) (← bool (← at' a 7)) (← breq (← at' a 8)))
   | "ad" => pure (.axisDim (← nat (← at' a 1)) (← nat (← at' a 2)) (← bool (← at' a 3)) (← str (← at' a 4))
-                  (← list (fun t => do let b ← arr t; pure (← nat (← at' b 0), ← nat (← at' b 1), ← nat (← at' b 2))) (← at' a 5)))
+                  (← list (fun t => do let b ← arr t; pure (← nat (← at' b 0), ← nat (← at' b 1), ← nat (← at' b 2))) (← at' a 5))
+                  (← (match a[6]? with | some x => bool x | none => pure false)))
   | "sc" => pure (.scalarCoord (← nat (← at' a 1)) (← nat (← at' a 2)) (← cons (← at' a 3)) (← str (← at' a 4)) (← breq (← at' a 5)))
   | "ax" => pure (.aux (← nat (← at' a 1)) (← cons (← at' a 2)) (← list nat (← at' a 3)) (← str (← at' a 4)) (← breq (← at' a 5)))
   | "da" => pure (.domAnc (← nat (← at' a 1)) (← cons (← at' a 2)) (← list nat (← at' a 3)) (← str (← at' a 4)) (← breq (← at' a 5)))
